@@ -28,6 +28,7 @@ type Obligation struct {
 	Pos       string
 	Text      string
 	Script    *Script
+	Slow      bool // discharged only in the thorough tier
 }
 
 type localPath struct {
@@ -145,6 +146,10 @@ func (g *Gen) addObl(kind, label string, st *State, goal string, pos token.Pos) 
 		p = fmt.Sprintf("%s:%d", pp.Filename, pp.Line)
 	}
 	o := &Obligation{Name: name, Kind: kind, Fn: g.fn.String(), PrefixLen: len(g.sc.lines), PC: st.pc, Goal: goal, Pos: p, Script: g.sc}
+	if strings.Contains(label, "!slow") {
+		o.Slow = true
+		o.Name = strings.ReplaceAll(o.Name, "!slow", "")
+	}
 	g.obls = append(g.obls, o)
 	return o
 }
@@ -508,8 +513,13 @@ func (g *Gen) storeAt(st *State, ref string, t types.Type, tag string, val strin
 	case *types.Array:
 		if !isByteLike(u.Elem()) {
 			if u.Len() <= 16 {
+				isZero := val == g.sc.sorts.zero(t)
 				for i := int64(0); i < u.Len(); i++ {
-					g.storeAt(st, fmt.Sprintf("(idx %s %d)", ref, i), u.Elem(), g.cellTag(u.Elem()), fmt.Sprintf("(select %s %d)", val, i))
+					ev := fmt.Sprintf("(select %s %d)", val, i)
+					if isZero {
+						ev = g.sc.sorts.zero(u.Elem())
+					}
+					g.storeAt(st, fmt.Sprintf("(idx %s %d)", ref, i), u.Elem(), g.cellTag(u.Elem()), ev)
 				}
 			} else {
 				g.havocTag(st, g.cellTag(u.Elem()))
@@ -526,7 +536,11 @@ func (g *Gen) storeAt(st *State, ref string, t types.Type, tag string, val strin
 
 func (g *Gen) havocTag(st *State, tag string) {
 	n := g.sc.fresh("hv_"+tag, g.sc.tagSort[tag])
-	g.sc.initTag(tag, n)
+	fr := ""
+	if tag != "!frontier" {
+		fr = g.frontier(st)
+	}
+	g.sc.initTag(tag, n, fr)
 	st.mem[tag] = n
 }
 
@@ -544,6 +558,7 @@ func (g *Gen) havocAll(st *State) {
 	nf := g.sc.fresh("frontier", "Int")
 	g.sc.emit("(assert (>= %s %s))", nf, fr)
 	st.mem["!frontier"] = nf
+	g.sc.epochFrontier[st.epoch] = nf
 }
 
 func (g *Gen) frontier(st *State) string {
@@ -576,6 +591,12 @@ func (g *Gen) mapTags(mt *types.Map) (dom, val, ln string) {
 	g.sc.regTag(dom, fmt.Sprintf("(Array Ref (Array %s Bool))", ks))
 	g.sc.tagSort["K:"+dom] = ks
 	g.sc.regTag(val, fmt.Sprintf("(Array Ref (Array %s %s))", ks, vs))
+	g.sc.tagSort["K:"+val] = ks
+	if rf := g.sc.sorts.rangeFact(mt.Elem(), "$v"); rf != "" {
+		if _, isInt := mt.Elem().Underlying().(*types.Basic); isInt {
+			g.sc.tagSort["VR:"+val] = rf
+		}
+	}
 	g.sc.regTag(ln, "(Array Ref Int)")
 	return
 }
@@ -865,6 +886,28 @@ func (g *Gen) processBlock(b *ssa.BasicBlock, entrySt *State) {
 		}
 	}
 	g.in[b] = st.clone()
+	// body-assert hints of a loop whose body starts here
+	for _, l2 := range g.loops {
+		if len(l2.header.Succs) > 0 && l2.header.Succs[0] == b && l2.blocks[b] && b != l2.header && len(b.Preds) == 1 {
+			if lc := g.loopContract(l2); lc != nil {
+				for _, c := range lc.BodyAsserts {
+					env := g.loopEnv(l2, st, nil)
+					t, err := env.formula(c.E)
+					if err != nil {
+						g.refusef("loop %d body-assert %q: %v", l2.ordinal, c.Text, err)
+						return
+					}
+					label := c.Label
+					if label == "" {
+						label = c.Text
+					}
+					o := g.addObl("body-assert", fmt.Sprintf("loop%d:%s", l2.ordinal, label), st, t, token.NoPos)
+					o.Text = c.Text
+					g.sc.assume(st.pc, t)
+				}
+			}
+		}
+	}
 	for _, ins := range b.Instrs {
 		g.instr(st, ins)
 		if g.refuse != "" {
@@ -1027,6 +1070,10 @@ func (g *Gen) havocLoop(li *loopInfo, st *State) {
 				}
 			case *ssa.Range:
 				touch(g.visTag(x)).unknown = true
+			case *ssa.Next:
+				if rng, ok := x.Iter.(*ssa.Range); ok && !x.IsString {
+					touch(g.visTag(rng)).unknown = true
+				}
 			case ssa.CallInstruction:
 				if bi, ok := x.Common().Value.(*ssa.Builtin); ok && bi.Name() == "append" {
 					// append writes only a fresh backing array
